@@ -1,6 +1,7 @@
 (* Proofs/ParadigmFieldMap.v — property C04, operation level: Workflow field mappings in
    stream form (chunk-wise, a chunk that lacks a key maps nothing) commute with
-   concatenation, when every key the mapping reads is carried by some chunk. *)
+   concatenation, when every key the mapping reads is carried by some chunk — for fields that
+   hold strings and for fields that hold (nested) maps. *)
 From Eino Require Import Base.Util Model.Paradigm Model.StreamOps Proofs.Paradigm Proofs.ParadigmOps.
 From Coq Require Import Lia.
 
@@ -46,202 +47,21 @@ Proof.
   - intros k. rewrite !mgather_ins_all by constructor. simpl. rewrite Hg. reflexivity.
 Qed.
 
-(* ------------------------------------------------------------------ the generic argument *)
-(* a chunk x gives, for the mapping entry e, a string or nothing *)
-Section Gen.
-  Context {X : Type}.
-  Variable get : X -> option N * N -> option string.
 
-  Definition gval (x : X) (e : option N * N) : string := match get x e with Some v => v | None => EmptyString end.
-
-  (* the key an entry writes *)
-  Definition tk (e : option N * N) : tkey := kstr (snd e).
-
-  Definition raw (es : list (option N * N)) (x : X) : amap :=
-    flat_map (fun e => match get x e with Some v => [(tk e, v)] | None => [] end) es.
-
-  Lemma raw_keys es x k : In k (mkeys (raw es x)) <-> exists e, In e es /\ tk e = k /\ get x e <> None.
-  Proof.
-    unfold raw, mkeys. rewrite in_map_iff. split.
-    - intros ([k' v] & <- & Hin). apply in_flat_map in Hin as (e & He & Hin).
-      destruct (get x e) eqn:E; [|destruct Hin]. destruct Hin as [Hin|[]]. inversion Hin; subst.
-      exists e. repeat split; auto. congruence.
-    - intros (e & He & <- & Hg). destruct (get x e) as [v|] eqn:E; [|congruence].
-      exists (tk e, v). split; auto. apply in_flat_map. exists e. split; auto. rewrite E. left. reflexivity.
-  Qed.
-
-  Lemma raw_flat es x : flat_keys (mkeys (raw es x)).
-  Proof. intros k Hk. apply raw_keys in Hk as (e & _ & <- & _). reflexivity. Qed.
-
-  (* the strings gathered under k: those of the entries that target k *)
-  Fixpoint gat (es : list (option N * N)) (k : tkey) (x : X) : string :=
-    match es with
-    | [] => EmptyString
-    | e :: es' => (if teqb k (tk e) then gval x e else EmptyString) +++ gat es' k x
-    end.
-
-  Lemma raw_gather es x k : mgather k (raw es x) = gat es k x.
-  Proof.
-    induction es as [|e es IH]; [reflexivity|].
-    unfold raw in *. cbn [flat_map gat]. rewrite mgather_app, IH. f_equal.
-    unfold gval. destruct (get x e) as [v|]; simpl.
-    - destruct (teqb k (tk e)); [apply app_nil_r_s|reflexivity].
-    - destruct (teqb k (tk e)); reflexivity.
-  Qed.
-
-  Lemma gat_notin es k x : ~ In k (map tk es) -> gat es k x = EmptyString.
-  Proof.
-    induction es as [|e es IH]; simpl; intros H; auto.
-    destruct (teqb_spec k (tk e)); [exfalso; apply H; auto|]. simpl. apply IH. auto.
-  Qed.
-
-  Lemma nodup_N_spec l : nodup_N l = true -> NoDup l.
-  Proof.
-    induction l as [|a l IH]; simpl; intros H; constructor.
-    - apply andb_prop in H as (H & _). apply Bool.negb_true_iff in H.
-      intros Hin. assert (existsb (N.eqb a) l = true); [|congruence].
-      apply existsb_exists. exists a. split; auto. apply N.eqb_refl.
-    - apply IH. apply andb_prop in H as (_ & H). exact H.
-  Qed.
-
-  Lemma nodup_tk es : NoDup (map snd es) -> NoDup (map tk es).
-  Proof.
-    induction es as [|e es IH]; simpl; intros H; constructor; inversion H; subst; auto.
-    intros Hin. apply in_map_iff in Hin as (e' & E & He'). unfold tk, kstr in E. inversion E as [E'].
-    match goal with H : ~ In _ _ |- _ => apply H end. rewrite <- E'. apply in_map, He'.
-  Qed.
-
-  Lemma classic_list (l : list X) e :
-    (forall x, In x l -> get x e = None) \/ (exists x, In x l /\ get x e <> None).
-  Proof.
-    induction l as [|a l IH]; [left; intros ? []|].
-    destruct (get a e) eqn:E.
-    - right. exists a. split; [left; reflexivity|congruence].
-    - destruct IH as [H|(x & Hx & Hg)].
-      + left. intros x [<-|Hx]; auto.
-      + right. exists x. split; [right; exact Hx|exact Hg].
-  Qed.
-
-  Variable xs : list X.
-  Variable whole : X.
-  Hypothesis Hnone : forall e, get whole e = None <-> forall x, In x xs -> get x e = None.
-  Hypothesis Hval : forall e, gval whole e = concat_strings (map (fun x => gval x e) xs).
-
-  Lemma concat_strings_nil (l : list X) : concat_strings (map (fun _ => EmptyString) l) = EmptyString.
-  Proof. induction l; simpl; auto. Qed.
-
-  Lemma gat_whole es k : NoDup (map tk es) ->
-    gat es k whole = concat_strings (map (fun x => gat es k x) xs).
-  Proof.
-    induction es as [|e es IH]; intros Hnd.
-    - simpl. symmetry. apply concat_strings_nil.
-    - inversion Hnd as [|? ? Hnotin Hnd']; subst. cbn [gat].
-      destruct (teqb_spec k (tk e)).
-      + subst k. rewrite (gat_notin es (tk e) whole Hnotin), app_nil_r_s, Hval.
-        f_equal. apply map_ext. intros x. rewrite (gat_notin es (tk e) x Hnotin), app_nil_r_s. reflexivity.
-      + simpl. rewrite IH by exact Hnd'. reflexivity.
-  Qed.
-
-  Lemma mgather_concat_map (f : X -> amap) k (l : list X) :
-    mgather k (List.concat (map f l)) = concat_strings (map (fun x => mgather k (f x)) l).
-  Proof.
-    induction l as [|x l IH]; [reflexivity|]. cbn [map List.concat].
-    rewrite mgather_app, IH. reflexivity.
-  Qed.
-
-  Lemma raw_commutes es : NoDup (map tk es) ->
-    ins_all (List.concat (map (raw es) xs)) [] = ins_all (raw es whole) [].
-  Proof.
-    intros Hnd. apply ins_all_ext.
-    - intros k. rewrite raw_keys. unfold mkeys. rewrite in_map_iff. split.
-      + intros ([k' v] & <- & Hin). apply in_concat in Hin as (r & Hr & Hin).
-        apply in_map_iff in Hr as (x & <- & Hx).
-        assert (Hk : In k' (mkeys (raw es x))) by (unfold mkeys; apply in_map_iff; exists (k', v); auto).
-        apply raw_keys in Hk as (e & He & Et & Hg). exists e. repeat split; auto.
-        intros Hn. apply Hg. exact (proj1 (Hnone e) Hn x Hx).
-      + intros (e & He & <- & Hg).
-        assert (Hex : exists x, In x xs /\ get x e <> None).
-        { clear -Hnone Hg. destruct (classic_list xs e) as [H|H]; auto.
-          exfalso. apply Hg, Hnone, H. }
-        destruct Hex as (x & Hx & Hgx).
-        assert (Hk : In (tk e) (mkeys (raw es x))) by (apply raw_keys; exists e; auto).
-        unfold mkeys in Hk. apply in_map_iff in Hk as (kv & Ek & Hin).
-        exists kv. split; auto. apply in_concat. exists (raw es x). split; auto. apply in_map, Hx.
-    - intros k. rewrite mgather_concat_map, raw_gather, (gat_whole es k Hnd).
-      f_equal. apply map_ext. intros x. apply raw_gather.
-  Qed.
-
-  (* the chunks a mapping produces hold strings only: they concatenate *)
-  Lemma mok_raw es (l : list X) : mok (map (fun r => ins_all r []) (map (raw es) l)) = true.
-  Proof.
-    destruct l as [|a [|b l]]; [reflexivity|reflexivity|].
-    change (mok (map (fun r => ins_all r []) (map (raw es) (a :: b :: l))))
-      with (mcons (ins_all (List.concat (map (fun r => ins_all r []) (map (raw es) (a :: b :: l)))) [])).
-    rewrite concat_canon, mcons_canon. apply mcons_spec, flat_Cons.
-    intros k Hk. unfold mkeys in Hk. apply in_map_iff in Hk as (e & <- & He).
-    apply in_concat in He as (r & Hr & He). apply in_map_iff in Hr as (x & <- & _).
-    apply (raw_flat es x). unfold mkeys. apply in_map, He.
-  Qed.
-End Gen.
-
-(* ------------------------------------------------------------------ the two chunk types *)
 Definition all_none (es : list (option N * N)) : bool :=
   forallb (fun e => match fst e with None => true | Some _ => false end) es.
-Definition all_some (es : list (option N * N)) : bool :=
-  forallb (fun e => match fst e with Some _ => true | None => false end) es.
 
-Definition getS (c : string) (e : option N * N) : option string := Some c.
-Definition getM (m : amap) (e : option N * N) : option string :=
-  match fst e with
-  | Some a => if mhas (kstr a) m then Some (mgather (kstr a) m) else None
-  | None => None
-  end.
-
-Lemma fm_VS strict es c :
-  fm_entries strict es (VS c) = if all_none es then Ok (raw getS es c) else Err e_type.
+Lemma nodup_N_spec l : nodup_N l = true -> NoDup l.
 Proof.
-  induction es as [|[[a|] t] es IH]; [reflexivity| |].
-  - reflexivity.
-  - cbn [fm_entries all_none forallb fst andb res_bind]. rewrite IH. fold (all_none es).
-    destruct (all_none es); reflexivity.
+  induction l as [|a l IH]; simpl; intros H; constructor.
+  - apply andb_prop in H as (H & _). apply Bool.negb_true_iff in H.
+    intros Hin. assert (existsb (N.eqb a) l = true); [|congruence].
+    apply existsb_exists. exists a. split; auto. apply N.eqb_refl.
+  - apply IH. apply andb_prop in H as (_ & H). exact H.
 Qed.
-
-Lemma fm_VM_lax es m :
-  fm_entries false es (VM m) = if all_some es then Ok (raw getM es m) else Err e_type.
-Proof.
-  induction es as [|[[a|] t] es IH]; [reflexivity| |].
-  - cbn [fm_entries all_some forallb fst andb]. rewrite IH. fold (all_some es).
-    unfold raw. cbn [flat_map]. unfold getM at 2. cbn [fst snd].
-    destruct (mhas (kstr a) m); cbn [res_bind]; destruct (all_some es); reflexivity.
-  - reflexivity.
-Qed.
-
-Lemma fm_VM_strict es m : forallb (fun a => mhas (kstr a) m) (fmap_from (FTo es)) = true ->
-  fm_entries true es (VM m) = fm_entries false es (VM m).
-Proof.
-  induction es as [|[[a|] t] es IH]; intros H; [reflexivity| |].
-  - cbn [fmap_from flat_map fst app forallb] in H. apply andb_prop in H as (Ha & H).
-    cbn [fm_entries]. rewrite Ha, IH by exact H. reflexivity.
-  - reflexivity.
-Qed.
-
-Lemma all_none_some es : es <> [] -> all_none es = true -> all_some es = true -> False.
-Proof. destruct es as [|[[a|] t] es]; simpl; intros; try congruence. Qed.
 
 Lemma mgather_concat a ms : mgather a (List.concat ms) = concat_strings (map (mgather a) ms).
 Proof. induction ms as [|m ms IH]; [reflexivity|]. simpl. rewrite mgather_app, IH. reflexivity. Qed.
-
-Lemma gvalM m a t : gval getM m (Some a, t) = mgather (kstr a) m.
-Proof.
-  unfold gval, getM. cbn [fst]. destruct (mhas (kstr a) m) eqn:E; auto.
-  symmetry. apply mgather_notin, mhas_notin, E.
-Qed.
-
-Lemma s_fmap_nonnil f s : s <> [] -> s_fmap f s <> [].
-Proof. destruct s; [congruence|discriminate]. Qed.
-
-Lemma fmap_bad f s : has_bad s -> has_bad (s_fmap f s).
-Proof. apply has_bad_map. reflexivity. Qed.
 
 Lemma all_bad (g : item val -> item val) s :
   s <> [] -> (forall it, In it s -> exists e, g it = Bad e) -> has_bad (map g s).
@@ -254,102 +74,519 @@ Lemma all_bad_fails (g : item val -> item val) s :
   s <> [] -> (forall it, In it s -> exists e, g it = Bad e) -> failed (vsconcat (map g s)).
 Proof. intros Hn H. apply vsconcat_bad, all_bad; auto. Qed.
 
+(* ------------------------------------------------------------------ nest / unnest and gathering *)
+Lemma mgather_map_nk k key m : mgather (nk k key) (map (nestk k) m) = mgather key m.
+Proof.
+  induction m as [|[k2 v2] m IH]; [reflexivity|]. cbn [map mgather]. unfold nestk at 1. cbn [fst snd].
+  change (k, KSub (fst k2) (snd k2)) with (nk k k2). rewrite teqb_nk, IH. reflexivity.
+Qed.
+
+Lemma teqb_marker_nk k key : teqb (nk k key) (k, KMap) = false.
+Proof. unfold teqb. rewrite (tcmp_antisym (k, KMap) (nk k key)), tcmp_marker. reflexivity. Qed.
+
+Lemma mgather_nest_nk k key m : mgather (nk k key) (nest k m) = mgather key m.
+Proof. unfold nest. cbn [mgather]. rewrite teqb_marker_nk. apply mgather_map_nk. Qed.
+
+Lemma keys_nest k m key : In key (mkeys (nest k m)) <-> key = (k, KMap) \/ exists key', key = nk k key' /\ In key' (mkeys m).
+Proof.
+  rewrite mkeys_nest. simpl. rewrite in_map_iff. split.
+  - intros [<-|(key' & <- & H)]; eauto.
+  - intros [->|(key' & -> & H)]; eauto.
+Qed.
+
+Lemma mgather_marker k m : mgather (k, KMap) (nest k m) = EmptyString.
+Proof.
+  unfold nest. cbn [mgather]. rewrite teqb_refl. cbn.
+  apply mgather_notin. intros H. unfold mkeys in H. rewrite map_map in H.
+  apply in_map_iff in H as (e & E & _). unfold nestk in E. cbn in E. discriminate.
+Qed.
+
+Lemma mgather_unnest k key m : mgather key (unnest k m) = mgather (nk k key) m.
+Proof.
+  induction m as [|[k2 v2] m IH]; [reflexivity|].
+  change (unnest k ((k2, v2) :: m)) with (sub_of k (k2, v2) ++ unnest k m).
+  rewrite mgather_app, IH, sub_of_eq. cbn [fst snd mgather].
+  destruct (sub_key k k2) as [key2|] eqn:E.
+  - apply sub_key_some in E. subst k2. cbn [mgather]. rewrite teqb_nk.
+    destruct (teqb key key2); [rewrite app_nil_r_s|]; reflexivity.
+  - cbn [mgather]. destruct (teqb_spec (nk k key) k2) as [<-|]; [|reflexivity].
+    rewrite sub_key_nk in E. discriminate.
+Qed.
+
+(* ------------------------------------------------------------------ the generic argument *)
+Section Gen2.
+  Context {X : Type}.
+  Variable contrib : X -> option N * N -> amap.
+  Hypothesis Hhead : forall x e key, In key (mkeys (contrib x e)) -> fst key = snd e.
+
+  Definition raw2 (es : list (option N * N)) (x : X) : amap := flat_map (contrib x) es.
+
+  Lemma raw2_keys es x key : In key (mkeys (raw2 es x)) <-> exists e, In e es /\ In key (mkeys (contrib x e)).
+  Proof.
+    unfold raw2, mkeys. rewrite in_map_iff. split.
+    - intros (kv & <- & Hin). apply in_flat_map in Hin as (e & He & Hin). exists e. split; auto.
+      apply in_map, Hin.
+    - intros (e & He & Hin). apply in_map_iff in Hin as (kv & <- & Hin). exists kv. split; auto.
+      apply in_flat_map. eauto.
+  Qed.
+
+  Lemma mgather_other x e key : fst key <> snd e -> mgather key (contrib x e) = EmptyString.
+  Proof. intros H. apply mgather_notin. intros Hin. apply H. eapply Hhead; eauto. Qed.
+
+  (* the mapping that writes under the head h, if any *)
+  Definition pick (es : list (option N * N)) (h : N) : option (option N * N) :=
+    find (fun e => N.eqb (snd e) h) es.
+
+  Lemma mgather_raw2 es x key : NoDup (map snd es) ->
+    mgather key (raw2 es x) = match pick es (fst key) with Some e => mgather key (contrib x e) | None => EmptyString end.
+  Proof.
+    induction es as [|e es IH]; intros Hnd; [reflexivity|].
+    inversion Hnd as [|? ? Hnotin Hnd']; subst.
+    unfold raw2, pick in *. cbn [flat_map find]. rewrite mgather_app.
+    destruct (N.eqb_spec (snd e) (fst key)) as [E|E].
+    - rewrite (mgather_notin key (flat_map (contrib x) es)); [apply app_nil_r_s|].
+      intros Hin. apply raw2_keys in Hin as (e' & He' & Hin). apply Hnotin.
+      rewrite E, (Hhead _ _ _ Hin). apply in_map, He'.
+    - rewrite mgather_other by congruence. cbn. apply IH, Hnd'.
+  Qed.
+
+  Variable xs : list X.
+  Variable whole : X.
+  Hypothesis Hkeys : forall e key, In key (mkeys (contrib whole e)) <-> exists x, In x xs /\ In key (mkeys (contrib x e)).
+  Hypothesis Hgather : forall e key, mgather key (contrib whole e) = concat_strings (map (fun x => mgather key (contrib x e)) xs).
+
+  Lemma concat_strings_nil2 (l : list X) : concat_strings (map (fun _ => EmptyString) l) = EmptyString.
+  Proof. induction l; simpl; auto. Qed.
+
+  Lemma raw2_commutes es : NoDup (map snd es) ->
+    ins_all (List.concat (map (raw2 es) xs)) [] = ins_all (raw2 es whole) [].
+  Proof.
+    intros Hnd. apply ins_all_ext.
+    - intros key. rewrite raw2_keys. split.
+      + intros Hin. unfold mkeys in Hin. apply in_map_iff in Hin as (kv & <- & Hin).
+        apply in_concat in Hin as (r & Hr & Hin). apply in_map_iff in Hr as (x & <- & Hx).
+        assert (Hk : In (fst kv) (mkeys (raw2 es x))) by (unfold mkeys; apply in_map, Hin).
+        apply raw2_keys in Hk as (e & He & Hk). exists e. split; auto. apply Hkeys. eauto.
+      + intros (e & He & Hin). apply Hkeys in Hin as (x & Hx & Hin).
+        apply (keys_concat_in _ (raw2 es x)); [apply in_map, Hx|]. apply raw2_keys. eauto.
+    - intros key. rewrite (mgather_raw2 es whole key Hnd).
+      assert (E : mgather key (List.concat (map (raw2 es) xs))
+                  = concat_strings (map (fun x => mgather key (raw2 es x)) xs)).
+      { clear. induction xs as [|x l IH]; [reflexivity|]. cbn [map List.concat].
+        rewrite mgather_app, IH. reflexivity. }
+      rewrite E. destruct (pick es (fst key)) as [e|] eqn:Ep.
+      + rewrite Hgather. f_equal. apply map_ext. intros x. rewrite (mgather_raw2 es x key Hnd), Ep. reflexivity.
+      + rewrite <- (concat_strings_nil2 xs). f_equal. apply map_ext. intros x.
+        rewrite (mgather_raw2 es x key Hnd), Ep. reflexivity.
+  Qed.
+End Gen2.
+
+(* ------------------------------------------------------------------ map chunks *)
+Lemma mgather_nest_cases k m key :
+  mgather key (nest k m) = match sub_key k key with Some key' => mgather key' m | None => EmptyString end.
+Proof.
+  assert (E : mgather key (nest k m) = mgather key (map (nestk k) m)).
+  { unfold nest. cbn [mgather]. destruct (teqb key (k, KMap)); reflexivity. }
+  rewrite E. destruct (sub_key k key) as [key'|] eqn:Es.
+  - apply sub_key_some in Es. subst key. apply mgather_map_nk.
+  - apply mgather_notin. intros H. unfold mkeys in H. rewrite map_map in H.
+    apply in_map_iff in H as (e & <- & _). rewrite nestk_fst, sub_key_nk in Es. discriminate.
+Qed.
+
+Lemma contribM_head m e key : In key (mkeys (contribM m e)) -> fst key = snd e.
+Proof.
+  unfold contribM. destruct (fst e) as [a|].
+  - destruct (mhas (kstr a) m); [intros [<-|[]]; reflexivity|].
+    destruct (hd_has a m); [|intros []].
+    intros H. apply keys_nest in H as [->|(key' & -> & _)]; reflexivity.
+  - intros H. apply keys_nest in H as [->|(key' & -> & _)]; reflexivity.
+Qed.
+
+Section MapChunks.
+  Variable ms : list amap.
+  Hypothesis Hms : ms <> [].
+  Hypothesis Hok : mok ms = true.
+
+  (* a string under a in the whole: every chunk that has something under a has a string there *)
+  Lemma chunk_str a m : In m ms -> mhas (kstr a) (mval ms) = true ->
+    mhas (kstr a) m = true \/ hd_has a m = false.
+  Proof.
+    intros Hm Eh. destruct (mhas (kstr a) m) eqn:Em; [left; reflexivity|right].
+    destruct (hd_has a m) eqn:Ed; [exfalso|reflexivity].
+    apply hd_has_spec in Ed as (key & Hin & Ek).
+    destruct ms as [|x [|y ms']]; [congruence| |].
+    - destruct Hm as [<-|[]]. simpl in Eh. congruence.
+    - assert (Hin' : In key (mkeys (mval (x :: y :: ms')))) by (apply mval_keys; eapply keys_concat_in; eauto).
+      pose proof (str_excludes a _ Hok Eh key Hin' Ek) as ->.
+      apply mhas_in in Hin. congruence.
+  Qed.
+
+  Lemma chunk_nostr a m : In m ms -> mhas (kstr a) (mval ms) = false -> mhas (kstr a) m = false.
+  Proof. intros Hm Eh. rewrite mhas_mval in Eh. exact (proj1 (mhas_concat_false _ ms) Eh m Hm). Qed.
+
+  Lemma some_chunk_has key : mhas key (mval ms) = true -> exists m, In m ms /\ mhas key m = true.
+  Proof.
+    rewrite mhas_mval. intros H. clear Hok Hms. induction ms as [|m l IH]; [discriminate|].
+    simpl in H. rewrite mhas_app in H. apply Bool.orb_true_iff in H as [H|H].
+    - exists m. split; [left; reflexivity|exact H].
+    - destruct (IH H) as (m' & Hm' & E). exists m'. split; [right; exact Hm'|exact E].
+  Qed.
+
+  Lemma some_chunk_hd a : hd_has a (mval ms) = true -> exists m, In m ms /\ hd_has a m = true.
+  Proof.
+    rewrite hd_has_mval, hd_has_concat. intros H. apply existsb_exists in H as (m & Hm & E). eauto.
+  Qed.
+
+  Lemma chunk_hd a m : In m ms -> hd_has a m = true -> hd_has a (mval ms) = true.
+  Proof.
+    intros Hm H. rewrite hd_has_mval, hd_has_concat. apply existsb_exists. eauto.
+  Qed.
+
+  Lemma whole_key key : In key (mkeys (mval ms)) <-> exists m, In m ms /\ In key (mkeys m).
+  Proof.
+    rewrite mval_keys. split.
+    - intros H. unfold mkeys in H. apply in_map_iff in H as (e & <- & He).
+      apply in_concat in He as (m & Hm & He). exists m. split; auto. unfold mkeys. apply in_map, He.
+    - intros (m & Hm & H). eapply keys_concat_in; eauto.
+  Qed.
+
+  Lemma whole_gather key : mgather key (mval ms) = concat_strings (map (mgather key) ms).
+  Proof. rewrite mgather_mval. apply mgather_concat. Qed.
+
+  Lemma contribM_keys e key :
+    In key (mkeys (contribM (mval ms) e)) <-> exists m, In m ms /\ In key (mkeys (contribM m e)).
+  Proof.
+    unfold contribM. destruct (fst e) as [a|].
+    - destruct (mhas (kstr a) (mval ms)) eqn:Eh.
+      + split.
+        * intros [<-|[]]. destruct (some_chunk_has _ Eh) as (m & Hm & E). exists m. split; auto.
+          rewrite E. left. reflexivity.
+        * intros (m & Hm & H). destruct (chunk_str a m Hm Eh) as [E|E].
+          -- rewrite E in H. destruct H as [<-|[]]. left. reflexivity.
+          -- destruct (mhas (kstr a) m); [destruct H as [<-|[]]; left; reflexivity|].
+             rewrite E in H. destruct H.
+      + destruct (hd_has a (mval ms)) eqn:Ed.
+        * split.
+          -- intros H. apply keys_nest in H as [->|(key' & -> & H)].
+             ++ destruct (some_chunk_hd a Ed) as (m & Hm & E). exists m. split; auto.
+                rewrite (chunk_nostr a m Hm Eh), E. apply keys_nest. left. reflexivity.
+             ++ apply unnest_keys, whole_key in H as (m & Hm & H). exists m. split; auto.
+                rewrite (chunk_nostr a m Hm Eh).
+                assert (E : hd_has a m = true) by (apply hd_has_spec; exists (nk a key'); split; auto).
+                rewrite E. apply keys_nest. right. exists key'. split; auto. apply unnest_keys, H.
+          -- intros (m & Hm & H). rewrite (chunk_nostr a m Hm Eh) in H.
+             destruct (hd_has a m) eqn:E; [|destruct H].
+             apply keys_nest in H as [->|(key' & -> & H)]; apply keys_nest; [left; reflexivity|right].
+             exists key'. split; auto. apply unnest_keys, whole_key. exists m. split; auto. apply unnest_keys, H.
+        * split; [intros []|].
+          intros (m & Hm & H). rewrite (chunk_nostr a m Hm Eh) in H.
+          destruct (hd_has a m) eqn:E; [|destruct H].
+          rewrite (chunk_hd a m Hm E) in Ed. discriminate.
+    - split.
+      + intros H. apply keys_nest in H as [->|(key' & -> & H)].
+        * destruct ms as [|m l]; [congruence|]. exists m. split; [left; reflexivity|]. apply keys_nest. left. reflexivity.
+        * apply whole_key in H as (m & Hm & H). exists m. split; auto. apply keys_nest. right. eauto.
+      + intros (m & Hm & H). apply keys_nest in H as [->|(key' & -> & H)]; apply keys_nest; [left; reflexivity|right].
+        exists key'. split; auto. apply whole_key. eauto.
+  Qed.
+
+  Lemma concat_strings_empty {Y} (l : list Y) : concat_strings (map (fun _ => EmptyString) l) = EmptyString.
+  Proof. induction l; simpl; auto. Qed.
+
+  Lemma concat_strings_ext {Y} (f g : Y -> string) (l : list Y) :
+    (forall y, In y l -> f y = g y) -> concat_strings (map f l) = concat_strings (map g l).
+  Proof.
+    induction l as [|y l IH]; intros H; [reflexivity|]. unfold concat_strings in *. cbn [map fold_right].
+    rewrite (H y (or_introl eq_refl)), IH; auto. intros; apply H; right; auto.
+  Qed.
+
+  Lemma contribM_gather e key :
+    mgather key (contribM (mval ms) e) = concat_strings (map (fun m => mgather key (contribM m e)) ms).
+  Proof.
+    unfold contribM. destruct (fst e) as [a|].
+    - destruct (mhas (kstr a) (mval ms)) eqn:Eh.
+      + (* a string *)
+        assert (Hc : forall m, In m ms ->
+                  mgather key (if mhas (kstr a) m then [(kstr (snd e), mgather (kstr a) m)]
+                               else if hd_has a m then nest (snd e) (unnest a m) else [])
+                  = if teqb key (kstr (snd e)) then mgather (kstr a) m else EmptyString).
+        { intros m Hm. destruct (chunk_str a m Hm Eh) as [E|E].
+          - rewrite E. cbn [mgather]. destruct (teqb key (kstr (snd e))); [apply app_nil_r_s|reflexivity].
+          - destruct (mhas (kstr a) m) eqn:Em.
+            + cbn [mgather]. destruct (teqb key (kstr (snd e))); [apply app_nil_r_s|reflexivity].
+            + rewrite E. cbn [mgather]. rewrite (mgather_notin (kstr a) m) by (apply mhas_notin, Em).
+              destruct (teqb key (kstr (snd e))); reflexivity. }
+        rewrite (concat_strings_ext _ _ ms Hc). cbn [mgather].
+        destruct (teqb key (kstr (snd e))).
+        * rewrite app_nil_r_s. apply whole_gather.
+        * symmetry. apply concat_strings_empty.
+      + destruct (hd_has a (mval ms)) eqn:Ed.
+        * (* a nested map *)
+          assert (Hc : forall m, In m ms ->
+                    mgather key (if mhas (kstr a) m then [(kstr (snd e), mgather (kstr a) m)]
+                                 else if hd_has a m then nest (snd e) (unnest a m) else [])
+                    = match sub_key (snd e) key with Some key' => mgather (nk a key') m | None => EmptyString end).
+          { intros m Hm. rewrite (chunk_nostr a m Hm Eh). destruct (hd_has a m) eqn:E.
+            - rewrite mgather_nest_cases. destruct (sub_key (snd e) key); [apply mgather_unnest|reflexivity].
+            - cbn [mgather]. destruct (sub_key (snd e) key) as [key'|]; [|reflexivity].
+              symmetry. apply mgather_notin. intros Hin. rewrite hd_has_false in E. apply (E _ Hin). reflexivity. }
+          rewrite (concat_strings_ext _ _ ms Hc), mgather_nest_cases.
+          destruct (sub_key (snd e) key) as [key'|].
+          -- rewrite mgather_unnest. apply whole_gather.
+          -- symmetry. apply concat_strings_empty.
+        * (* nothing *)
+          assert (Hc : forall m, In m ms ->
+                    mgather key (if mhas (kstr a) m then [(kstr (snd e), mgather (kstr a) m)]
+                                 else if hd_has a m then nest (snd e) (unnest a m) else [])
+                    = EmptyString).
+          { intros m Hm. rewrite (chunk_nostr a m Hm Eh). destruct (hd_has a m) eqn:E; [|reflexivity].
+            rewrite (chunk_hd a m Hm E) in Ed. discriminate. }
+          rewrite (concat_strings_ext _ _ ms Hc). cbn [mgather]. symmetry. apply concat_strings_empty.
+    - (* the whole map under the target field *)
+      rewrite mgather_nest_cases.
+      assert (Hc : forall m, In m ms -> mgather key (nest (snd e) m)
+                   = match sub_key (snd e) key with Some key' => mgather key' m | None => EmptyString end).
+      { intros m _. apply mgather_nest_cases. }
+      rewrite (concat_strings_ext _ _ ms Hc).
+      destruct (sub_key (snd e) key) as [key'|]; [apply whole_gather|symmetry; apply concat_strings_empty].
+  Qed.
+
+  Lemma rawM_commutes es : NoDup (map snd es) ->
+    ins_all (List.concat (map (raw2 contribM es) ms)) [] = ins_all (raw2 contribM es (mval ms)) [].
+  Proof.
+    apply (raw2_commutes contribM contribM_head ms (mval ms)).
+    - intros e key. apply contribM_keys.
+    - intros e key. apply contribM_gather.
+  Qed.
+End MapChunks.
+
+(* ------------------------------------------------------------------ no type conflict in what a mapping list produces *)
+Section ConsRaw.
+  Context {X : Type}.
+  Variable contrib : X -> option N * N -> amap.
+  Hypothesis Hhead : forall x e key, In key (mkeys (contrib x e)) -> fst key = snd e.
+
+  Lemma raw2_cons es x : NoDup (map snd es) -> (forall e, In e es -> mcons (contrib x e) = true) ->
+    mcons (raw2 contrib es x) = true.
+  Proof.
+    intros Hnd Hc. apply mcons_spec. intros a b Ha Hb.
+    apply raw2_keys in Ha as (ea & Hea & Ha). apply raw2_keys in Hb as (eb & Heb & Hb).
+    destruct (N.eqb_spec (snd ea) (snd eb)) as [E|E].
+    - assert (ea = eb).
+      { clear -Hnd Hea Heb E. induction es as [|e l IH]; [contradiction|].
+        inversion Hnd as [|? ? Hn Hnd']; subst.
+        destruct Hea as [<-|Hea], Heb as [<-|Heb]; auto.
+        - exfalso. apply Hn. rewrite E. apply in_map, Heb.
+        - exfalso. apply Hn. rewrite <- E. apply in_map, Hea. }
+      subst eb. specialize (Hc ea Hea). apply mcons_spec in Hc. apply Hc; auto.
+    - unfold tclash. rewrite (Hhead _ _ _ Ha), (Hhead _ _ _ Hb).
+      destruct (N.eqb_spec (snd ea) (snd eb)); [contradiction|reflexivity].
+  Qed.
+End ConsRaw.
+
+Lemma contribM_cons m e : mcons m = true -> mcons (contribM m e) = true.
+Proof.
+  intros Hc. unfold contribM. destruct (fst e) as [a|].
+  - destruct (mhas (kstr a) m); [apply mcons_single|].
+    destruct (hd_has a m); [|reflexivity]. rewrite mcons_nest. apply Cons_unnest, Hc.
+  - rewrite mcons_nest. exact Hc.
+Qed.
+
+Lemma unnest_mval k ms : ms <> [] -> ins_all (unnest k (mval ms)) [] = ins_all (unnest k (List.concat ms)) [].
+Proof.
+  destruct ms as [|a [|b ms0]]; intros H; [congruence| |].
+  - simpl. rewrite app_nil_r. reflexivity.
+  - unfold mval. rewrite unnest_ins_all0, ins_all_canon0. reflexivity.
+Qed.
+
+Lemma mok_mcons ms : 2 <= List.length ms -> mok ms = true -> mcons (List.concat ms) = true.
+Proof.
+  destruct ms as [|a [|b ms]]; simpl; intros Hl H; try lia. unfold mok in H. rewrite mcons_canon in H. exact H.
+Qed.
+
+Lemma mok_of_mcons ms : mcons (List.concat ms) = true -> mok ms = true.
+Proof. destruct ms as [|a [|b ms]]; intros H; [reflexivity|reflexivity|]. unfold mok. rewrite mcons_canon. exact H. Qed.
+
+Lemma mok_map {Y} (g : Y -> amap) (l : list Y) :
+  (2 <= List.length l -> mcons (List.concat (map g l)) = true) -> mok (map g l) = true.
+Proof.
+  destruct l as [|a [|b l]]; intros H; [reflexivity|reflexivity|].
+  apply mok_of_mcons, H. simpl. lia.
+Qed.
+
+(* ------------------------------------------------------------------ the two chunk types *)
+Definition contribS (c : string) (e : option N * N) : amap := [(kstr (snd e), c)].
+
+Lemma fm_VS2 strict es c :
+  fm_entries strict es (VS c) = if all_none es then Ok (raw2 contribS es c) else Err e_type.
+Proof.
+  induction es as [|[[a|] t] es IH]; [reflexivity| |].
+  - reflexivity.
+  - cbn [fm_entries fm_one all_none forallb fst snd andb res_bind]. rewrite IH. fold (all_none es).
+    destruct (all_none es); reflexivity.
+Qed.
+
+Lemma fm_VM_lax2 es m : fm_entries false es (VM m) = Ok (raw2 contribM es m).
+Proof.
+  induction es as [|[[a|] t] es IH]; [reflexivity| |];
+    cbn [fm_entries fm_one fst snd andb res_bind]; rewrite IH; reflexivity.
+Qed.
+
+Lemma fm_VM_strict2 es m : forallb (fun a => mhas (kstr a) m || hd_has a m) (fmap_from (FTo es)) = true ->
+  fm_entries true es (VM m) = Ok (raw2 contribM es m).
+Proof.
+  induction es as [|[[a|] t] es IH]; intros H; [reflexivity| |].
+  - cbn [fmap_from flat_map fst app forallb] in H. apply andb_prop in H as (Ha & H).
+    cbn [fm_entries fm_one fst snd andb]. rewrite Ha. cbn [negb res_bind]. rewrite IH by exact H. reflexivity.
+  - cbn [fm_entries fm_one fst snd res_bind]. rewrite IH by exact H. reflexivity.
+Qed.
+
+Lemma s_fmap_nonnil f s : s <> [] -> s_fmap f s <> [].
+Proof. destruct s; [congruence|discriminate]. Qed.
+
+Lemma fmap_bad f s : has_bad s -> has_bad (s_fmap f s).
+Proof. apply has_bad_map. reflexivity. Qed.
+
+Lemma contribS_head c e key : In key (mkeys (contribS c e)) -> fst key = snd e.
+Proof. intros [<-|[]]. reflexivity. Qed.
+
+(* the chunks a mapping produces from a stream of maps without type conflict concatenate *)
+Lemma mok_rawM es ms : NoDup (map snd es) -> ms <> [] -> mok ms = true ->
+  mok (map (fun r => ins_all r []) (map (raw2 contribM es) ms)) = true.
+Proof.
+  intros Hnd Hms Hok. rewrite map_map. apply mok_map. intros Hl.
+  rewrite <- (map_map (raw2 contribM es) (fun r => ins_all r [])).
+  rewrite <- mcons_canon, concat_canon.
+  rewrite (rawM_commutes ms) by auto. rewrite mcons_canon.
+  apply (raw2_cons contribM contribM_head); auto.
+  intros e _. apply contribM_cons.
+  destruct ms as [|a [|b ms0]]; simpl in Hl; try lia.
+  unfold mval. rewrite mcons_canon. apply mok_mcons; auto; simpl; lia.
+Qed.
+
+Lemma mok_rawS es ss : mok (map (fun r => ins_all r []) (map (raw2 contribS es) ss)) = true.
+Proof.
+  apply mok_of_mcons. rewrite <- mcons_canon, concat_canon, mcons_canon.
+  apply mcons_spec, flat_Cons. intros key Hk. unfold mkeys in Hk. apply in_map_iff in Hk as (e & <- & He).
+  apply in_concat in He as (r & Hr & He). apply in_map_iff in Hr as (c & <- & _).
+  assert (Hk : In (fst e) (mkeys (raw2 contribS es c))) by (unfold mkeys; apply in_map, He).
+  apply raw2_keys in Hk as (e' & _ & [<-|[]]). reflexivity.
+Qed.
+
+Lemma rawS_commutes es ss : ss <> [] -> NoDup (map snd es) ->
+  ins_all (List.concat (map (raw2 contribS es) ss)) [] = ins_all (raw2 contribS es (concat_strings ss)) [].
+Proof.
+  intros Hss. apply (raw2_commutes contribS contribS_head ss (concat_strings ss)).
+  - intros e key. unfold contribS. simpl. split.
+    + intros [<-|[]]. destruct ss as [|c l]; [congruence|]. exists c. split; [left; reflexivity|left; reflexivity].
+    + intros (c & _ & [<-|[]]). left. reflexivity.
+  - intros e key. unfold contribS. cbn [mgather]. destruct (teqb key (kstr (snd e))).
+    + rewrite app_nil_r_s. rewrite <- (map_id ss) at 1. f_equal. apply map_ext. intros c. symmetry. apply app_nil_r_s.
+    + clear. induction ss; simpl; auto.
+Qed.
+
 (* ------------------------------------------------------------------ the theorem *)
 Theorem concat_fieldMap_lem f s : fmap_wf f = true -> s <> [] -> sound s ->
   (forall x, vsconcat s = Ok x -> fmap_dom f x = true) ->
   agree (vsconcat (s_fmap f s)) (res_bind (vsconcat s) (v_fmap f)) /\ s_fmap f s <> []
   /\ sound (s_fmap f s).
 Proof.
-  intros Hwf Hn Hs Hd. split; [|split; [apply s_fmap_nonnil, Hn|]].
-  2:{ (* soundness: from the agreement below, proved twice to keep the statement flat *)
-    apply sound_cases in Hs as [Hb|[(ss & Hss & ->)|(ms & Hms & -> & Hok)]].
-    - apply sound_bad, fmap_bad, Hb.
-    - destruct f as [es|a].
-      + destruct (all_none es) eqn:En.
-        * assert (Es : s_fmap (FTo es) (sVS ss) = sVM (map (fun r => ins_all r []) (map (raw getS es) ss))).
-          { unfold s_fmap, sVS, sVM. rewrite !map_map. apply map_ext. intros c. rewrite fm_VS, En. reflexivity. }
-          rewrite Es. right. eexists. apply vsconcat_sVM_ok; [destruct ss; [congruence|discriminate]|apply mok_raw].
-        * apply sound_bad, all_bad; [exact Hn|]. intros it Hit. apply in_sVS in Hit as (c & ->).
-          rewrite fm_VS, En. eauto.
-      + apply sound_bad, all_bad; [exact Hn|]. intros it Hit. apply in_sVS in Hit as (c & ->). eauto.
-    - destruct f as [es|a].
-      + destruct (all_some es) eqn:En.
-        * assert (Es : s_fmap (FTo es) (sVM ms) = sVM (map (fun r => ins_all r []) (map (raw getM es) ms))).
-          { unfold s_fmap, sVM. rewrite !map_map. apply map_ext. intros m. rewrite fm_VM_lax, En. reflexivity. }
-          rewrite Es. right. eexists. apply vsconcat_sVM_ok; [destruct ms; [congruence|discriminate]|apply mok_raw].
-        * apply sound_bad, all_bad; [exact Hn|]. intros it Hit. apply in_sVM in Hit as (m & ->).
-          rewrite fm_VM_lax, En. eauto.
-      + assert (Es : s_fmap (FTake a) (sVM ms) = sVS (map (mgather (kstr a)) ms)).
-        { unfold s_fmap, sVM, sVS. rewrite !map_map. reflexivity. }
-        rewrite Es. right. eexists. apply vsconcat_sVS. destruct ms; [congruence|discriminate]. }
+  intros Hwf Hn Hs Hd.
+  cut (agree (vsconcat (s_fmap f s)) (res_bind (vsconcat s) (v_fmap f)) /\ sound (s_fmap f s)).
+  { intros (Ha & Hso). split; [exact Ha|]. split; [apply s_fmap_nonnil, Hn|exact Hso]. }
   apply sound_cases in Hs as [Hb|[(ss & Hss & ->)|(ms & Hms & -> & Hok)]].
-  - apply agree_failed; [apply vsconcat_bad, fmap_bad, Hb|apply failed_bind, vsconcat_bad, Hb].
+  - split; [|apply sound_bad, fmap_bad, Hb].
+    apply agree_failed; [apply vsconcat_bad, fmap_bad, Hb|apply failed_bind, vsconcat_bad, Hb].
   - (* a stream of strings *)
     rewrite vsconcat_sVS by exact Hss. cbn [res_bind].
-    destruct f as [es|a].
-    + cbn [v_fmap]. rewrite fm_VS. destruct (all_none es) eqn:En; cbn [res_bind].
-      * assert (Es : s_fmap (FTo es) (sVS ss) = sVM (map (fun r => ins_all r []) (map (raw getS es) ss))).
-        { unfold s_fmap, sVS, sVM. rewrite !map_map. apply map_ext. intros c.
-          rewrite fm_VS, En. reflexivity. }
-        rewrite Es, vsconcat_sVM_ok; [|destruct ss; [congruence|discriminate]|apply mok_raw].
-        rewrite mval_canon by (destruct ss; [congruence|discriminate]).
-        simpl in Hwf. apply andb_prop in Hwf as (_ & Hnd). apply nodup_N_spec, nodup_tk in Hnd.
-        rewrite (raw_commutes getS ss (concat_strings ss)); [reflexivity| | |exact Hnd].
-        -- intros e. unfold getS. split; [discriminate|].
-           intros H. destruct ss as [|c ss]; [congruence|]. discriminate (H c (or_introl eq_refl)).
-        -- intros e. unfold gval, getS. rewrite map_id. reflexivity.
-      * apply agree_failed; [|apply failed_Err].
-        apply all_bad_fails; [exact Hn|]. intros it Hit. apply in_sVS in Hit as (c & ->).
-        rewrite fm_VS, En. eauto.
-    + cbn [v_fmap v_getStr]. apply agree_failed; [|apply failed_Err].
-      apply all_bad_fails; [exact Hn|]. intros it Hit. apply in_sVS in Hit as (c & ->). eauto.
+    assert (Hallbad : forall g, (forall c, exists e, g (Val (VS c)) = Bad e) ->
+              failed (vsconcat (map g (sVS ss))) /\ sound (map g (sVS ss))).
+    { intros g Hg. assert (Hb : has_bad (map g (sVS ss))).
+      { apply all_bad; [exact Hn|]. intros it Hit. apply in_sVS in Hit as (c & ->). apply Hg. }
+      split; [apply vsconcat_bad, Hb|apply sound_bad, Hb]. }
+    destruct f as [es|a [|]].
+    + cbn [v_fmap]. rewrite fm_VS2. destruct (all_none es) eqn:En; cbn [res_bind].
+      * assert (Es : s_fmap (FTo es) (sVS ss) = sVM (map (fun r => ins_all r []) (map (raw2 contribS es) ss))).
+        { unfold s_fmap, sVS, sVM. rewrite !map_map. apply map_ext. intros c. rewrite fm_VS2, En. reflexivity. }
+        simpl in Hwf. apply andb_prop in Hwf as (_ & Hnd). apply nodup_N_spec in Hnd.
+        assert (E : vsconcat (s_fmap (FTo es) (sVS ss)) = Ok (VM (ins_all (raw2 contribS es (concat_strings ss)) []))).
+        { rewrite Es, vsconcat_sVM_ok; [|destruct ss; [congruence|discriminate]|apply mok_rawS].
+          rewrite mval_canon by (destruct ss; [congruence|discriminate]).
+          rewrite rawS_commutes by auto. reflexivity. }
+        rewrite E. split; [reflexivity|eapply sound_ok; eauto].
+      * destruct (Hallbad (fun it => match it with
+                                     | Bad e => Bad e
+                                     | Val x => match fm_entries false es x with Ok r => Val (VM (ins_all r [])) | _ => Bad e_type end
+                                     end)) as (Hf & Hso).
+        { intros c. rewrite fm_VS2, En. eauto. }
+        split; [apply agree_failed; [exact Hf|apply failed_Err]|exact Hso].
+    + cbn [v_fmap v_getMap].
+      destruct (Hallbad (fun it => match it with
+                                   | Bad e => Bad e
+                                   | Val (VM m) => if mhas (kstr a) m then Bad e_type else Val (VM (ins_all (unnest a m) []))
+                                   | Val (VS _) => Bad e_type
+                                   end)) as (Hf & Hso); [eauto|].
+      split; [apply agree_failed; [exact Hf|apply failed_Err]|exact Hso].
+    + cbn [v_fmap v_getStr].
+      destruct (Hallbad (fun it => match it with
+                                   | Bad e => Bad e
+                                   | Val (VM m) => Val (VS (mgather (kstr a) m))
+                                   | Val (VS _) => Bad e_type
+                                   end)) as (Hf & Hso); [eauto|].
+      split; [apply agree_failed; [exact Hf|apply failed_Err]|exact Hso].
   - (* a stream of maps *)
     specialize (Hd (VM (mval ms))). rewrite vsconcat_sVM_ok in Hd by auto. specialize (Hd eq_refl).
     rewrite vsconcat_sVM_ok by auto. cbn [res_bind].
-    destruct f as [es|a].
-    + cbn [v_fmap]. cbn [fmap_dom] in Hd. rewrite (fm_VM_strict es _ Hd), fm_VM_lax.
-      destruct (all_some es) eqn:En; cbn [res_bind].
-      * assert (Es : s_fmap (FTo es) (sVM ms) = sVM (map (fun r => ins_all r []) (map (raw getM es) ms))).
-        { unfold s_fmap, sVM. rewrite !map_map. apply map_ext. intros m.
-          rewrite fm_VM_lax, En. reflexivity. }
-        rewrite Es, vsconcat_sVM_ok; [|destruct ms; [congruence|discriminate]|apply mok_raw].
+    destruct f as [es|a [|]].
+    + cbn [v_fmap]. cbn [fmap_dom] in Hd. rewrite (fm_VM_strict2 es _ Hd). cbn [res_bind].
+      assert (Es : s_fmap (FTo es) (sVM ms) = sVM (map (fun r => ins_all r []) (map (raw2 contribM es) ms))).
+      { unfold s_fmap, sVM. rewrite !map_map. apply map_ext. intros m. rewrite fm_VM_lax2. reflexivity. }
+      simpl in Hwf. apply andb_prop in Hwf as (_ & Hnd). apply nodup_N_spec in Hnd.
+      assert (E : vsconcat (s_fmap (FTo es) (sVM ms)) = Ok (VM (ins_all (raw2 contribM es (mval ms)) []))).
+      { rewrite Es, vsconcat_sVM_ok; [|destruct ms; [congruence|discriminate]|apply mok_rawM; auto].
         rewrite mval_canon by (destruct ms; [congruence|discriminate]).
-        simpl in Hwf. apply andb_prop in Hwf as (_ & Hnd). apply nodup_N_spec, nodup_tk in Hnd.
-        rewrite (raw_commutes getM ms (mval ms)); [reflexivity| | |exact Hnd].
-        -- intros [[a|] t]; unfold getM; cbn [fst].
-           ++ rewrite mhas_mval.
-              destruct (mhas (kstr a) (List.concat ms)) eqn:Eh.
-              ** split; [discriminate|]. intros H. exfalso.
-                 assert (Hall : forall m, In m ms -> mhas (kstr a) m = false).
-                 { intros m Hm. specialize (H m Hm). destruct (mhas (kstr a) m); [discriminate|reflexivity]. }
-                 apply mhas_concat_false in Hall. congruence.
-              ** split; auto. intros _ m Hm.
-                 rewrite (proj1 (mhas_concat_false (kstr a) ms) Eh m Hm). reflexivity.
-           ++ split; auto.
-        -- intros [[a|] t].
-           ++ rewrite gvalM, mgather_mval, mgather_concat. f_equal. apply map_ext. intros m.
-              symmetry. apply gvalM.
-           ++ unfold gval, getM. cbn [fst]. symmetry. apply concat_strings_nil.
-      * apply agree_failed; [|apply failed_Err].
-        apply all_bad_fails; [exact Hn|]. intros it Hit. apply in_sVM in Hit as (m & ->).
-        rewrite fm_VM_lax, En. eauto.
-    + cbn [v_fmap v_getStr]. cbn [fmap_dom fmap_from forallb] in Hd. rewrite Bool.andb_true_r in Hd.
-      unfold mlookup. rewrite Hd.
-      assert (Es : s_fmap (FTake a) (sVM ms) = sVS (map (mgather (kstr a)) ms)).
+        rewrite rawM_commutes by auto. reflexivity. }
+      rewrite E. split; [reflexivity|eapply sound_ok; eauto].
+    + (* FromField, the field holds a map *)
+      cbn [v_fmap v_getMap]. cbn [fmap_dom] in Hd.
+      destruct (mhas (kstr a) (mval ms)) eqn:Eh.
+      * destruct (some_chunk_has ms (kstr a) Eh) as (m & Hm & Em).
+        assert (Hb : has_bad (s_fmap (FTake a true) (sVM ms))).
+        { exists e_type. unfold s_fmap, sVM. rewrite map_map. apply in_map_iff. exists m. rewrite Em. auto. }
+        split; [apply agree_failed; [apply vsconcat_bad, Hb|apply failed_Err]|apply sound_bad, Hb].
+      * cbn [orb] in Hd. rewrite Hd.
+        assert (Es : s_fmap (FTake a true) (sVM ms) = sVM (map (fun r => ins_all r []) (map (unnest a) ms))).
+        { unfold s_fmap, sVM. rewrite !map_map. apply map_ext_in. intros m Hm.
+          rewrite (chunk_nostr ms a m Hm Eh). reflexivity. }
+        assert (Hokc : mok (map (fun r => ins_all r []) (map (unnest a) ms)) = true).
+        { rewrite map_map. apply mok_map. intros Hl.
+          rewrite <- (map_map (unnest a) (fun r => ins_all r [])).
+          rewrite <- mcons_canon, concat_canon, <- unnest_concat, mcons_canon.
+          apply Cons_unnest. apply mok_mcons; auto. }
+        assert (E : vsconcat (s_fmap (FTake a true) (sVM ms)) = Ok (VM (ins_all (unnest a (mval ms)) []))).
+        { rewrite Es, vsconcat_sVM_ok; [|destruct ms; [congruence|discriminate]|exact Hokc].
+          rewrite mval_canon by (destruct ms; [congruence|discriminate]).
+          rewrite <- unnest_concat, unnest_mval by exact Hms. reflexivity. }
+        rewrite E. split; [reflexivity|eapply sound_ok; eauto].
+    + (* FromField, the field holds a string *)
+      cbn [v_fmap v_getStr]. cbn [fmap_dom] in Hd. unfold mlookup. rewrite Hd.
+      assert (Es : s_fmap (FTake a false) (sVM ms) = sVS (map (mgather (kstr a)) ms)).
       { unfold s_fmap, sVM, sVS. rewrite !map_map. reflexivity. }
-      rewrite Es, vsconcat_sVS by (destruct ms; [congruence|discriminate]).
-      rewrite mgather_mval, mgather_concat. reflexivity.
+      assert (E : vsconcat (s_fmap (FTake a false) (sVM ms)) = Ok (VS (mgather (kstr a) (mval ms)))).
+      { rewrite Es, vsconcat_sVS by (destruct ms; [congruence|discriminate]).
+        rewrite mgather_mval, mgather_concat. reflexivity. }
+      rewrite E. split; [reflexivity|eapply sound_ok; eauto].
 Qed.
 
 (* mechanism of finding F-C04c: a key the mapping reads and no chunk carries — the value
    form fails, the stream form maps nothing (a stream of empty strings / empty maps) *)
 Lemma fieldMap_missing_lem a ms : ms <> [] -> mok ms = true -> mhas (kstr a) (mval ms) = false ->
-  res_bind (vsconcat (sVM ms)) (v_fmap (FTake a)) = Err e_nokey
-  /\ vsconcat (s_fmap (FTake a) (sVM ms)) = Ok (VS EmptyString).
+  res_bind (vsconcat (sVM ms)) (v_fmap (FTake a false)) = Err e_nokey
+  /\ vsconcat (s_fmap (FTake a false) (sVM ms)) = Ok (VS EmptyString).
 Proof.
   intros Hms Hok Hh. split.
   - rewrite vsconcat_sVM_ok by auto. cbn [res_bind v_fmap v_getStr]. unfold mlookup. rewrite Hh. reflexivity.
-  - assert (Es : s_fmap (FTake a) (sVM ms) = sVS (map (mgather (kstr a)) ms)).
+  - assert (Es : s_fmap (FTake a false) (sVM ms) = sVS (map (mgather (kstr a)) ms)).
     { unfold s_fmap, sVM, sVS. rewrite !map_map. reflexivity. }
     rewrite Es, vsconcat_sVS by (destruct ms; [congruence|discriminate]).
     rewrite <- mgather_concat, <- mgather_mval.
